@@ -132,6 +132,32 @@ template<typename Src, typename Dst> static std::string rcast(bool vol, const st
   auto r = rlbox::sandbox_reinterpret_cast<Dst>(p);
   return "ok " + addr((const void*)r.UNSAFE_unverified());
 }
+// a backend whose pointer representation is as wide as a host pointer but still an OFFSET (ABI N): a cast of a pointer stored in
+// sandbox memory must translate it like any other load, never take the stored bits for the address
+static rlbox::rlbox_sandbox<SbxN> g_sbN;
+static std::string castn(const std::string& which, const std::string& off)
+{
+  auto* im = g_sbN.get_sandbox_impl();
+  if (im->brk > (1u << 15)) im->brk = 16;
+  tainted<int*, SbxN> p0 = nullptr;
+  if (off != "null") p0.assign_raw_pointer(g_sbN, reinterpret_cast<int*>(im->Base + (uintptr_t)parse_dec(off)));
+  auto show = [&](const void* r) -> std::string {
+    auto a = reinterpret_cast<uintptr_t>(r);
+    if (a == 0) return "ok null";
+    if (a >= im->Base && a - im->Base < SbxN::Size) return "ok in0:" + std::to_string(a - im->Base);
+    char b[48]; snprintf(b, sizeof b, "ok out:0x%llx", (unsigned long long)a); return b;
+  };
+  if (which == "ccastn") {
+    tainted<const int*, SbxN> p = rlbox::sandbox_const_cast<const int*>(p0);
+    auto cell = g_sbN.malloc_in_sandbox<const int*>(); *cell = p;
+    auto r = rlbox::sandbox_const_cast<int*>(*cell);
+    static_assert(std::is_same_v<decltype(r), tainted<int*, SbxN>>);
+    return show(r.UNSAFE_unverified());
+  }
+  auto cell = g_sbN.malloc_in_sandbox<int*>(); *cell = p0;
+  auto r = rlbox::sandbox_reinterpret_cast<char*>(*cell);
+  return show(r.UNSAFE_unverified());
+}
 static tainted<long, SbxA> g_cb_val;
 static rlbox::tainted_opaque<long, SbxA> cb_opq(Sb&, rlbox::tainted_opaque<long, SbxA> a) { (void)a; return g_cb_val.to_opaque(); }
 // floating-point opaque values through a callback: parameter and result travel in floating-point registers, so the wrapper must
@@ -163,7 +189,7 @@ int main()
   fill_all(std::make_index_sequence<NT>());
   fillf_all(std::make_index_sequence<NF>());
   static vsbx::Library lib("libcasts", { { "gl_see", (void*)&gl_see }, { "gl_callcb", (void*)&gl_callcb } });
-  g_sb.create_sandbox(&lib); g_sb1.create_sandbox();
+  g_sb.create_sandbox(&lib); g_sb1.create_sandbox(); g_sbN.create_sandbox();
   main_loop([&](const std::vector<std::string>& t) -> std::string {
     return guarded([&]() -> std::string {
       auto ty = [&](const std::string& n) { for (size_t i = 0; i < NT; i++) if (n == Names[i]) return (int)i; return -1; };
@@ -213,6 +239,7 @@ int main()
         if (k == "basea>baseb") return rcast<CBaseA*, CBaseB*>(vol, t[4]);
         return "badop";
       }
+      if ((t[0] == "ccastn" || t[0] == "rcastn") && t.size() == 2) return castn(t[0], t[1]);
       if (t[0] == "ccast" && t.size() == 3) {
         bool vol = t[1] == "tvol";
         if (g_sb.get_sandbox_impl()->brk > (1u << 15)) g_sb.get_sandbox_impl()->brk = 16;
